@@ -99,7 +99,8 @@ func HasMixedSpellings(w *World) bool {
 	return mixed
 }
 
-// PermuteUnordered permutes what NetworkPolicy semantics leave unordered: rules within a direction and peers within a rule.
+// PermuteUnordered permutes what the semantics leave unordered: NetworkPolicy rules within a direction, peers and ports within a rule
+// (of a NetworkPolicy or of an admin policy).
 func PermuteUnordered(r *rng.R, w *World) *World {
 	v := w.Clone()
 	for i := range v.NetPols {
@@ -109,7 +110,22 @@ func PermuteUnordered(r *rng.R, w *World) *World {
 		for _, rules := range [][]NPRule{np.Ingress, np.Egress} {
 			for ri := range rules {
 				rng.Shuffle(r, rules[ri].Peers)
+				rng.Shuffle(r, rules[ri].Ports) // a ports list is a union too
 			}
+		}
+	}
+	// admin policies: the RULES are ordered, the peers and the ports inside one rule are not
+	admin := [][]ANPRule{}
+	for i := range v.ANPs {
+		admin = append(admin, v.ANPs[i].Ingress, v.ANPs[i].Egress)
+	}
+	if v.BANP != nil {
+		admin = append(admin, v.BANP.Ingress, v.BANP.Egress)
+	}
+	for _, rules := range admin {
+		for ri := range rules {
+			rng.Shuffle(r, rules[ri].Peers)
+			rng.Shuffle(r, rules[ri].Ports)
 		}
 	}
 	return v
